@@ -1,4 +1,7 @@
-import Hgxv.Proofs.C09Forms
+import Hgxv.Proofs.C09Order
+import Hgxv.Proofs.C09Tensor
+import Hgxv.Proofs.C09Witness
+import Mathlib.Data.ZMod.Basic
 /-! # C09 — matrix / tensor representations equal their definitions under the node mapping
 
 Property theorems about the model `Hgxv/Model/C09.lean`, for every node list, every list of hyperedges and
@@ -99,3 +102,281 @@ theorem C09_dual {R : Type} [CommRing R] [CharZero R] [DecidableEq R] (nodes : L
   by_cases hex : ∃ x, x ∈ edges[a] ∧ x ∈ edges[b]
   · rw [if_neg (fun h0 => (hiff.1 h0) hex), if_pos hex]
   · rw [if_pos (hiff.2 hex), if_neg hex]
+
+/-! ## per-order variants -/
+
+/-- Incidence of order `d`: the columns are the hyperedges of order `d` (size `d+1`) in listing order, the rows are
+all nodes (`keep_isolated_nodes=True`) or exactly the nodes lying in a hyperedge of order `d` (`False`), sorted;
+entry `(i, e)` is the weight of `e` (1 if unweighted) when the node of row `i` belongs to `e`, else 0;
+the returned mapping is the mapping of that node list (so `C09_mapping_bij` applies to it). -/
+theorem C09_by_order_incidence {R : Type} [CommRing R] (d : Nat) (k : Bool) (nodes : List Nat) (es : List (Edge × R))
+    (hN : nodes.Nodup) (hE : ∀ e ∈ es, ∀ x ∈ e.1, x ∈ nodes) :
+    (subNodes d k nodes es).Nodup
+    ∧ (∀ x, x ∈ subNodes d k nodes es ↔ if k then x ∈ nodes else ∃ e ∈ es, e.1.length = d + 1 ∧ x ∈ e.1)
+    ∧ (∀ e, e ∈ ofOrder d es ↔ e ∈ es ∧ e.1.length = d + 1)
+    ∧ mappingByOrder d k nodes es = mapping (subNodes d k nodes es)
+    ∧ ∀ i j (hi : i < (classes (subNodes d k nodes es)).length) (hj : j < (ofOrder d es).length),
+        entry (incByOrder d k nodes es) i j
+          = some (if (classes (subNodes d k nodes es))[i] ∈ ((ofOrder d es)[j]).1 then ((ofOrder d es)[j]).2 else 0) := by
+  refine ⟨subNodes_nodup d k nodes es hN, ?_, mem_ofOrder d es, rfl, ?_⟩
+  · intro x
+    cases k
+    · simpa using mem_subNodes_false d nodes es x
+    · simp [subNodes_true]
+  · intro i j hi hj
+    exact C09_incidence_weighted _ _ (subNodes_nodup d k nodes es hN) (subNodes_covers d k nodes es hE) i j hi hj
+
+/-- Adjacency of order `d`, unweighted hypergraph: entry `(i, j)`, `i ≠ j`, is the number of hyperedges of order `d`
+containing both nodes; zero diagonal. -/
+theorem C09_by_order {R : Type} [CommRing R] (d : Nat) (nodes : List Nat) (es : List (Edge × R))
+    (hN : nodes.Nodup) (hE : ∀ e ∈ es, ∀ x ∈ e.1, x ∈ nodes) (hW : ∀ e ∈ es, e.2 = 1)
+    (i j : Nat) (hi : i < (classes nodes).length) (hj : j < (classes nodes).length) :
+    entry (adjByOrder d nodes es) i j
+      = some (if i = j then 0
+              else ((es.countP fun e => e.1.length == d + 1 &&
+                      (decide ((classes nodes)[i] ∈ e.1) && decide ((classes nodes)[j] ∈ e.1)) : Nat) : R)) := by
+  unfold adjByOrder
+  simp only
+  rw [gramMatrix_eq d nodes es hN hE, entry_subDiag, entry_map_map _ _ _ i j hi hj, gram_unweighted d es hW]
+  rfl
+
+/-- The same for arbitrary weights (what the code computes: the weights enter squared). -/
+theorem C09_by_order_weighted {R : Type} [CommRing R] (d : Nat) (nodes : List Nat) (es : List (Edge × R))
+    (hN : nodes.Nodup) (hE : ∀ e ∈ es, ∀ x ∈ e.1, x ∈ nodes)
+    (i j : Nat) (hi : i < (classes nodes).length) (hj : j < (classes nodes).length) :
+    entry (adjByOrder d nodes es) i j
+      = some (if i = j then 0
+              else ((ofOrder d es).map fun e =>
+                if (classes nodes)[i] ∈ e.1 ∧ (classes nodes)[j] ∈ e.1 then e.2 * e.2 else 0).sum) := by
+  unfold adjByOrder
+  simp only
+  rw [gramMatrix_eq d nodes es hN hE, entry_subDiag, entry_map_map _ _ _ i j hi hj]
+  simp only [Option.map_some, gram]
+  congr 3
+  apply List.map_congr_left
+  intro e _
+  by_cases h1 : (classes nodes)[i] ∈ e.1 <;> by_cases h2 : (classes nodes)[j] ∈ e.1 <;> simp [ind, h1, h2]
+
+/-- Degree matrix of order `d` (the repaired `degree_matrix`, D24): diagonal entry `i` is the number of hyperedges
+of order `d` containing the node of row `i` (the label, not the index), off-diagonal entries are 0. -/
+theorem C09_degree_matrix {R : Type} [CommRing R] (d : Nat) (nodes : List Nat) (es : List (Edge × R))
+    (i j : Nat) (hi : i < (classes nodes).length) (hj : j < (classes nodes).length) :
+    entry (degMatrix d nodes es) i j
+      = some (if i = j then ((es.countP fun e => e.1.length == d + 1 && decide ((classes nodes)[i] ∈ e.1) : Nat) : R)
+              else 0) := by
+  rw [degMatrix_eq, entry_diag _ i j (by simpa using hi) (by simpa using hj)]
+  simp only [List.getElem_map, degree_eq_countP, Bool.and_self]
+
+/-! ## Laplacian of order `d` -/
+
+/-- For an unweighted hypergraph `L_d = d·D_d − A_d` entry by entry, with `D_d` the order-`d` degree matrix and
+`A_d` the order-`d` adjacency matrix of the model (characterised by `C09_degree_matrix` and `C09_by_order`). -/
+theorem C09_laplacian {R : Type} [CommRing R] (d : Nat) (nodes : List Nat) (es : List (Edge × R))
+    (hN : nodes.Nodup) (hE : ∀ e ∈ es, ∀ x ∈ e.1, x ∈ nodes) (hW : ∀ e ∈ es, e.2 = 1)
+    (i j : Nat) (hi : i < (classes nodes).length) (hj : j < (classes nodes).length) :
+    entry (laplacian d nodes es) i j
+      = (entry (degMatrix d nodes es) i j).bind fun a =>
+          (entry (adjByOrder d nodes es) i j).map fun b => (d : R) * a - b := by
+  rw [lap_entry d nodes es hN hE i j hi hj, C09_degree_matrix d nodes es i j hi hj,
+    C09_by_order d nodes es hN hE hW i j hi hj, gram_unweighted d es hW]
+  simp only [Option.bind_some, Option.map_some, Option.some.injEq]
+  by_cases h : i = j
+  · subst h
+    simp only [if_true, degree_eq_countP, Bool.and_self]
+    push_cast
+    ring
+  · simp [h]
+
+/-- The Laplacian is symmetric (any weights). -/
+theorem C09_laplacian_symm {R : Type} [CommRing R] (d : Nat) (nodes : List Nat) (es : List (Edge × R))
+    (hN : nodes.Nodup) (hE : ∀ e ∈ es, ∀ x ∈ e.1, x ∈ nodes)
+    (i j : Nat) (hi : i < (classes nodes).length) (hj : j < (classes nodes).length) :
+    entry (laplacian d nodes es) i j = entry (laplacian d nodes es) j i := by
+  rw [lap_entry d nodes es hN hE i j hi hj, lap_entry d nodes es hN hE j i hj hi, gram_comm]
+  by_cases h : i = j
+  · subst h; rfl
+  · have h' : ¬ j = i := fun e => h e.symm
+    simp [h, h']
+
+/-- Every row of the Laplacian of an unweighted hypergraph sums to zero (hyperedges are duplicate-free tuples of
+nodes of the hypergraph: a hyperedge of order `d` has exactly `d + 1` members among the rows). -/
+theorem C09_laplacian_row_sums {R : Type} [CommRing R] (d : Nat) (nodes : List Nat) (es : List (Edge × R))
+    (hN : nodes.Nodup) (hE : ∀ e ∈ es, ∀ x ∈ e.1, x ∈ nodes) (hD : ∀ e ∈ es, e.1.Nodup) (hW : ∀ e ∈ es, e.2 = 1)
+    (i : Nat) (hi : i < (classes nodes).length) :
+    ((laplacian d nodes es)[i]?).map List.sum = some 0 := by
+  rw [lap_row d nodes es hN hE i hi, Option.map_some, sum_zipWith_sub _ _ (by simp),
+    sum_gram_unweighted d nodes es hN hE hD hW, sum_map_mul_left', sum_range_ite _ i hi]
+  simp
+
+/-! ## adjacency tensor of a uniform hypergraph on nodes `0..N-1` -/
+
+/-- The routine returns a tensor exactly for a non-empty uniform hypergraph (it raises otherwise). -/
+theorem C09_tensor_defined {R : Type} [CommRing R] (N : Nat) (edges : List Edge) :
+    ((tensor N edges : Option (List (List Nat × R))).isSome ↔ edges ≠ [] ∧ ∃ k, ∀ e ∈ edges, e.length = k) := by
+  unfold tensor
+  cases h : uniformSize edges with
+  | none =>
+    simp only [Option.isSome_none, Bool.false_eq_true, false_iff, not_and, not_exists]
+    intro hne k hk
+    have := (uniformSize_eq_some edges k).2 ⟨hne, hk⟩
+    rw [h] at this; cases this
+  | some k =>
+    simp only [Option.isSome_some, true_iff]
+    exact ⟨((uniformSize_eq_some edges k).1 h).1, k, ((uniformSize_eq_some edges k).1 h).2⟩
+
+/-- For hyperedges of common size `k`, the tensor is the map defined on exactly the index tuples of length `k` over
+`0..N-1` (each with one value), and `T[p] = 1` when `p` is a permutation of a hyperedge, `0` otherwise:
+the symmetric indicator of the hyperedges. -/
+theorem C09_tensor {R : Type} [CommRing R] (N k : Nat) (edges : List Edge)
+    (hne : edges ≠ []) (hU : ∀ e ∈ edges, e.length = k) :
+    ∃ t : List (List Nat × R), tensor N edges = some t ∧ t.map (·.1) = tuples N k ∧
+      ∀ p v, (p, v) ∈ t ↔ (p.length = k ∧ ∀ x ∈ p, x < N) ∧ v = if ∃ e ∈ edges, p.Perm e then 1 else 0 := by
+  have hk := (uniformSize_eq_some edges k).2 ⟨hne, hU⟩
+  refine ⟨(tuples N k).map fun p => (p, ind ((edges.flatMap perms).contains p)), by unfold tensor; rw [hk],
+    by rw [List.map_map]; exact (List.map_congr_left (fun _ _ => rfl)).trans (List.map_id _), ?_⟩
+  intro p v
+  simp only [List.mem_map, Prod.mk.injEq]
+  have hind : (ind ((edges.flatMap perms).contains p) : R) = if ∃ e ∈ edges, p.Perm e then 1 else 0 := by
+    have : (edges.flatMap perms).contains p = decide (∃ e ∈ edges, p.Perm e) := by
+      rw [Bool.eq_iff_iff]
+      simp [List.mem_flatMap, mem_perms]
+    rw [this]
+    by_cases h : ∃ e ∈ edges, p.Perm e <;> simp [ind, h]
+  constructor
+  · rintro ⟨q, hq, rfl, rfl⟩
+    exact ⟨(mem_tuples N k q).1 hq, hind⟩
+  · rintro ⟨hp, rfl⟩
+    exact ⟨p, (mem_tuples N k p).2 hp, rfl, hind⟩
+
+/-- Symmetry: the tensor takes the same value at an index tuple and at each of its permutations. -/
+theorem C09_tensor_symm {R : Type} [CommRing R] (N : Nat) (edges : List Edge) (t : List (List Nat × R))
+    (ht : tensor N edges = some t) (p q : List Nat) (hpq : p.Perm q) (v w : R)
+    (hv : (p, v) ∈ t) (hw : (q, w) ∈ t) : v = w := by
+  have hsome : (tensor N edges : Option (List (List Nat × R))).isSome := by rw [ht]; rfl
+  obtain ⟨hne, k, hU⟩ := (C09_tensor_defined N edges).1 hsome
+  obtain ⟨t', ht', _, hchar⟩ := C09_tensor (R := R) N k edges hne hU
+  rw [ht] at ht'
+  cases ht'
+  rw [((hchar p v).1 hv).2, ((hchar q w).1 hw).2]
+  have : (∃ e ∈ edges, p.Perm e) ↔ (∃ e ∈ edges, q.Perm e) :=
+    ⟨fun ⟨e, he, h⟩ => ⟨e, he, hpq.symm.trans h⟩, fun ⟨e, he, h⟩ => ⟨e, he, hpq.trans h⟩⟩
+  simp [this]
+
+/-! ## temporal hypergraph -/
+
+/-- The matrix at time `t` is the adjacency matrix of the snapshot at `t`: the listed times are those of the records,
+the snapshot's nodes are the nodes of the hyperedges recorded at `t`, and entry `(i, j)`, `i ≠ j`, is the number of
+records `(t, e)` whose hyperedge contains both nodes (zero diagonal). -/
+theorem C09_temporal {R : Type} [CommRing R] (recs : List (Rec R)) (t : Nat) :
+    (t ∈ times recs ↔ ∃ r ∈ recs, r.1 = t)
+    ∧ (∀ x, x ∈ snapshotNodes recs t ↔ ∃ r ∈ recs, r.1 = t ∧ x ∈ r.2.1)
+    ∧ temporalAdj recs t = adj (snapshotNodes recs t) ((snapshot recs t).map (·.1))
+    ∧ ∀ i j (hi : i < (classes (snapshotNodes recs t)).length) (hj : j < (classes (snapshotNodes recs t)).length),
+        entry (temporalAdj recs t) i j
+          = some (if i = j then 0
+                  else ((recs.countP fun r => r.1 == t &&
+                          (decide ((classes (snapshotNodes recs t))[i] ∈ r.2.1)
+                            && decide ((classes (snapshotNodes recs t))[j] ∈ r.2.1)) : Nat) : R)) := by
+  have hmem : ∀ x, x ∈ snapshotNodes recs t ↔ ∃ r ∈ recs, r.1 = t ∧ x ∈ r.2.1 := by
+    intro x
+    simp only [snapshotNodes, snapshot, mem_classes, List.mem_flatten, List.mem_map, List.mem_filter, beq_iff_eq]
+    constructor
+    · rintro ⟨l, ⟨e, ⟨r, ⟨hr, ht⟩, rfl⟩, rfl⟩, hx⟩
+      exact ⟨r, hr, ht, hx⟩
+    · rintro ⟨r, hr, ht, hx⟩
+      exact ⟨r.2.1, ⟨r.2, ⟨r, ⟨hr, ht⟩, rfl⟩, rfl⟩, hx⟩
+  refine ⟨?_, hmem, rfl, ?_⟩
+  · simp [times, mem_classes]
+  · intro i j hi hj
+    unfold temporalAdj
+    have hnd : (snapshotNodes recs t).Nodup := by unfold snapshotNodes; exact classes_nodup _
+    rw [C09_adjacency (snapshotNodes recs t) _ hnd ?_ i j hi hj]
+    · congr 3
+      simp only [snapshot, List.map_map, List.countP_map, List.countP_filter]
+      congr 1
+      funext r
+      simp [Function.comp, Bool.and_comm]
+    · intro e he x hx
+      simp only [snapshot, List.map_map, List.mem_map, List.mem_filter, beq_iff_eq] at he
+      obtain ⟨r, ⟨hr, ht⟩, rfl⟩ := he
+      exact (hmem x).2 ⟨r, hr, ht, hx⟩
+
+/-! ## why D25 had to be repaired: the same model in arithmetic modulo 256 -/
+
+/-- In `uint8` arithmetic (`R = ZMod 256`, the unrepaired code) the adjacency claim fails: whenever two nodes share
+exactly 256 hyperedges their adjacency entry is 0. -/
+theorem C09_adjacency_wraps (nodes : List Nat) (edges : List Edge)
+    (hN : nodes.Nodup) (hE : ∀ e ∈ edges, ∀ x ∈ e, x ∈ nodes)
+    (i j : Nat) (hi : i < (classes nodes).length) (hj : j < (classes nodes).length) (hij : i ≠ j)
+    (h256 : (edges.countP fun e => decide ((classes nodes)[i] ∈ e) && decide ((classes nodes)[j] ∈ e)) = 256) :
+    entry (adj nodes edges : List (List (ZMod 256))) i j = some 0
+    ∧ entry (adj nodes edges : List (List Int)) i j = some 256 := by
+  rw [C09_adjacency nodes edges hN hE i j hi hj, C09_adjacency nodes edges hN hE i j hi hj, if_neg hij, if_neg hij, h256]
+  exact ⟨by congr 1, by simp⟩
+
+/-- A concrete witness: a legitimate hypergraph (distinct nodes, 256 distinct duplicate-free hyperedges) in which
+nodes `3` and `5` (rows 0 and 1) share 256 hyperedges: adjacency entry 0 modulo 256, 256 over the integers. -/
+theorem C09_adjacency_wraps_witness :
+    wrapNodes.Nodup ∧ wrapEdges.Nodup ∧ (∀ e ∈ wrapEdges, e.Nodup ∧ ∀ x ∈ e, x ∈ wrapNodes)
+    ∧ entry (adj wrapNodes wrapEdges : List (List (ZMod 256))) 0 1 = some 0
+    ∧ entry (adj wrapNodes wrapEdges : List (List Int)) 0 1 = some 256 := by
+  have h1 : wrapNodes.Nodup := by decide +kernel
+  have h2 : wrapEdges.Nodup := by
+    have hk : wrapEdges.map wrapKey = (List.range 256).map (fun m : Nat => m + 512) := by decide +kernel
+    apply List.Nodup.of_map wrapKey
+    rw [hk]
+    exact List.Nodup.map (fun a b h => by simpa using h) List.nodup_range
+  have h3 : ∀ e ∈ wrapEdges, e.Nodup ∧ ∀ x ∈ e, x ∈ wrapNodes := by decide +kernel
+  exact ⟨h1, h2, h3, C09_adjacency_wraps wrapNodes wrapEdges h1 (fun e he => (h3 e he).2) 0 1
+    (by decide +kernel) (by decide +kernel) (by decide) (by decide +kernel)⟩
+
+/-! ## non-vacuity: every theorem instantiated on a concrete hypergraph with labels that are not `0..N-1`,
+an isolated node (50), overlapping hyperedges of orders 1 and 2 -/
+
+local notation "exN" => ([30, 10, 20, 7, 50] : List Nat)
+local notation "exE" => ([[10, 20, 30], [20, 10], [7, 30], [30, 20, 7]] : List Edge)
+local notation "exW" => ([([10, 20, 30], 1), ([20, 10], 1), ([7, 30], 1), ([30, 20, 7], 1)] : List (Edge × Int))
+local notation "exQ" => ([([10, 20, 30], 2), ([20, 10], 3), ([7, 30], 1), ([30, 20, 7], 5)] : List (Edge × Int))
+
+example : mapping exN = [(0, 7), (1, 10), (2, 20), (3, 30), (4, 50)] := by decide
+example : (mapping exN).map (·.1) = List.range 5 := (C09_mapping_bij exN (by decide)).1
+example : entry (binInc (α := Int) exN exE) 3 2 = some 1 :=
+  (C09_incidence exN exE (by decide) (by decide) 3 2 (by decide) (by decide)).trans (by decide)
+example : entry (binInc (α := Int) exN exE) 5 0 = none :=
+  C09_incidence_shape exN exE (by decide) (by decide) 5 0 (by decide)
+example : entry (inc exN exQ) 2 3 = some 5 :=
+  (C09_incidence_weighted exN exQ (by decide) (by decide) 2 3 (by decide) (by decide)).trans (by decide)
+example : entry (adj (α := Int) exN exE) 2 3 = some 2 :=
+  (C09_adjacency exN exE (by decide) (by decide) 2 3 (by decide) (by decide)).trans (by decide)
+example : entry (dual (α := Int) exN exE) 1 2 = some 0 ∧ entry (dual (α := Int) exN exE) 1 3 = some 1 := by decide
+example : entry (dual (α := Int) exN exE) 1 3 = some 1 :=
+  (C09_dual exN exE (by decide) (by decide) 1 3 (by decide) (by decide)).trans (by decide)
+example : classes (subNodes 1 false exN exW) = [7, 10, 20, 30] ∧ incByOrder 1 false exN exW = [[0, 1], [1, 0], [1, 0], [0, 1]] := by
+  decide
+example : (subNodes 1 false exN exW).Nodup := (C09_by_order_incidence 1 false exN exW (by decide) (by decide)).1
+example : entry (adjByOrder 2 exN exW) 2 3 = some 2 :=
+  (C09_by_order 2 exN exW (by decide) (by decide) (by decide) 2 3 (by decide) (by decide)).trans (by decide)
+example : entry (adjByOrder 2 exN exQ) 2 3 = some 29 :=
+  (C09_by_order_weighted 2 exN exQ (by decide) (by decide) 2 3 (by decide) (by decide)).trans (by decide)
+example : entry (degMatrix 2 exN exW) 3 3 = some 2 :=
+  (C09_degree_matrix 2 exN exW 3 3 (by decide) (by decide)).trans (by decide)
+example : laplacian 2 exN exW =
+    [[2, 0, -1, -1, 0], [0, 2, -1, -1, 0], [-1, -1, 4, -2, 0], [-1, -1, -2, 4, 0], [0, 0, 0, 0, 0]] := by decide
+example : entry (laplacian 2 exN exW) 2 3 = some (2 * 0 - 2) :=
+  (C09_laplacian 2 exN exW (by decide) (by decide) (by decide) 2 3 (by decide) (by decide)).trans (by decide)
+example : entry (laplacian 2 exN exQ) 2 3 = entry (laplacian 2 exN exQ) 3 2 :=
+  C09_laplacian_symm 2 exN exQ (by decide) (by decide) 2 3 (by decide) (by decide)
+example : ((laplacian 2 exN exW)[2]?).map List.sum = some 0 :=
+  C09_laplacian_row_sums 2 exN exW (by decide) (by decide) (by decide) (by decide) 2 (by decide)
+example : (tensor (α := Int) 3 [[0, 1], [2, 1]]).map (fun t => t.map (·.2)) = some [0, 1, 0, 1, 0, 1, 0, 1, 0] := by decide
+example : (tensor (α := Int) 3 [[0, 1], [2, 1]]).isSome :=
+  (C09_tensor_defined (R := Int) 3 [[0, 1], [2, 1]]).2 ⟨by decide, 2, by decide⟩
+example : ∃ t : List (List Nat × Int), tensor 3 [[0, 1], [2, 1]] = some t ∧ t.map (·.1) = tuples 3 2 := by
+  obtain ⟨t, h1, h2, _⟩ := C09_tensor (R := Int) 3 2 [[0, 1], [2, 1]] (by decide) (by decide)
+  exact ⟨t, h1, h2⟩
+example : (tensor (α := Int) 3 [[0, 1], [2, 1, 0]]) = none := by decide
+local notation "exR" => ([(3, [10, 20, 30], 1), (3, [20, 30], 1), (7, [5, 10], 1), (3, [30, 40], 1)] : List (Rec Int))
+example : times exR = [3, 7] ∧ snapshotNodes exR 3 = [10, 20, 30, 40]
+    ∧ temporalAdj exR 3 = [[0, 1, 1, 0], [1, 0, 2, 0], [1, 2, 0, 1], [0, 0, 1, 0]] := by decide
+example : entry (temporalAdj exR 3) 1 2 = some 2 :=
+  ((C09_temporal exR 3).2.2.2 1 2 (by decide) (by decide)).trans (by decide)
